@@ -45,6 +45,9 @@ func c13Fixture() *core.Spec {
 		core.MkReg("Leaf_S6_a", godi.Transient),
 		core.MkReg("InOptAfter_S7", godi.Scoped),    // S7(S5, S6 optional)
 		core.MkReg("InOptAfter_S4", godi.Transient), // S4(S5, S6 optional)
+		// instance values (no constructor: only the container's own yield points can park their resolution)
+		{Ctor: -1, Value: "S3", Life: godi.Scoped, Name: "v"},
+		{Ctor: -1, Value: "S3", Life: godi.Transient, Name: "w"},
 	}}
 }
 
@@ -75,6 +78,8 @@ func overlapScenarios() []overlapScenario {
 		{"get-group", core.Op{Kind: core.OpGetGroup, Type: "S0", Group: "g"}, false},
 		{"get-keyed-transient", core.Op{Kind: core.OpGet, Type: "S1", Key: "k"}, false},
 		{"get-scoped-leaf", core.Op{Kind: core.OpGet, Type: "S2"}, false},
+		{"get-scoped-instance-value", core.Op{Kind: core.OpGet, Type: "S3", Key: "v"}, false},
+		{"get-transient-instance-value", core.Op{Kind: core.OpGet, Type: "S3", Key: "w"}, false},
 		{"get-scoped-with-optional-fields", core.Op{Kind: core.OpGet, Type: "S7"}, false},
 		{"get-transient-with-optional-fields", core.Op{Kind: core.OpGet, Type: "S4"}, false},
 		{"create-child-with-initializers", core.Op{Kind: core.OpCreate, CtxKind: 0}, true},
@@ -452,6 +457,9 @@ func overlapAtFor(c *eng.Ctx, prop string, idx int, sc overlapScenario, _, _ int
 	// error met on the way must fail the resolution, not be taken for "optional and absent")
 	if !r.Poisoned && op.Kind != core.OpCreate && opRes.Class == "ok" {
 		fs = append(fs, halfInitialised(r, opRes.Op, feat)...)
+		if op.Kind == core.OpGet && opRes.IsNil {
+			fs = append(fs, core.Finding{Clause: "half-initialised-result", Sig: feat + ":nil-value-without-error", Detail: fmt.Sprintf("%s, pause point %d: %s returned no error and no instance", feat, j, op.String())})
+		}
 	}
 	// a scope that was returned normally by a CreateScope overlapping the Close of its parent
 	// (or of an ancestor / the provider) is a descendant of a closed scope once both calls have
